@@ -41,6 +41,7 @@ Fixpoint offenders (ts : list tool) (idx : nat) : wire :=
       ++ (if documented_ok t then [] else [zn idx; -5; 0])
       ++ (if tool_params_used_ok t then [] else [zn idx; -6; 0])
       ++ (if option_count_ok t then [] else [zn idx; -7; 0])
+      ++ (if tool_doc_order_ok t then [] else [zn idx; -9; 0])
       ++ (if unknown_check_ok t then [] else [zn idx; -8; 0])
       ++ offenders r (S idx)
   end.
